@@ -1,6 +1,7 @@
 CONSTANTS
   TLen = 5
   NPrim = 3
+  NMat = 1
   MaxObj = 4
   MaxDepth = 3
 SPECIFICATION Spec
